@@ -83,7 +83,22 @@ func c13Run(c *Ctx) {
 			anyRequired = true
 		}
 		g.Inputs = append(g.Inputs, mon.GInput{Name: in.name, DT: ref.F32, Dims: in.dims})
-		if r.Chance(0.2) {
+		if in.shadowed && r.Chance(0.25) {
+			// a default without elements (extent 0 on an open axis) that no node reads: it is a
+			// default like any other, the input stays optional
+			for d := range in.dims {
+				if in.dims[d].Value == 0 {
+					empty := append([]int{}, concrete...)
+					empty[d] = 0
+					in.initVal = ref.New(ref.F32, empty...)
+					g.Inits[len(g.Inits)-1].T = in.initVal
+					in.unused = true
+					break
+				}
+			}
+		}
+		if in.unused {
+		} else if r.Chance(0.2) {
 			in.unused = true // a declared input (shadowed or not) that no node consumes
 		} else {
 			g.Nodes = append(g.Nodes, mon.GNode{Op: "Relu", Inputs: []string{in.name}, Outputs: []string{"y" + fmt.Sprint(i)}})
